@@ -139,9 +139,11 @@ def body_polylike(env, kinds=1, shape='triangle', nrows=3, xperms=None, yperms=N
         install_path_stub()
         _clamp_linspace()
     xkind, ykind = KINDS[kinds]
-    d, xpos, ypos, xcats, ycats = build(env, xkind, ykind, nrows, xperms, yperms)
     dx = env.real('dx', lo=-1.5, hi=1.5)
     dy = env.real('dy', lo=-1.5, hi=1.5)
+    if (xkind, ykind) == ('num', 'num') and shape not in SHAPES:
+        return _numeric_conic(env, shape, nrows, dx, dy)
+    d, xpos, ypos, xcats, ycats = build(env, xkind, ykind, nrows, xperms, yperms)
     if shape in SHAPES:
         vx, vy = SHAPES[shape]
         roi = PolygonalROI([v + dx for v in vx], [v + dy for v in vy])
@@ -160,10 +162,15 @@ def body_polylike(env, kinds=1, shape='triangle', nrows=3, xperms=None, yperms=N
             return q <= (r * f) ** 2 * (1 - 1e-3), q >= r * r * (1 + 1e-3)
     else:
         rx, ry = 1.5, 0.75
-        roi = EllipticalROI(1.0 + dx, 1.0 + dy, rx, ry)
+        thetas = [0.0, 2.0, -0.5, 3.5] if (xkind, ykind) == ('num', 'num') else [0.0]
+        theta = thetas[env.choice('theta', len(thetas))]
+        roi = EllipticalROI(1.0 + dx, 1.0 + dy, rx, ry, theta=theta)
+        from vtools import symnp as sn
+        ct, st_ = sn.trig(theta)
 
         def classify(px, py):
-            a, b = (px - 1.0 - dx) / rx, (py - 1.0 - dy) / ry
+            ux, uy = px - 1.0 - dx, py - 1.0 - dy
+            a, b = (ct * ux + st_ * uy) / rx, (-st_ * ux + ct * uy) / ry          # point rotated back into the ellipse frame
             q = a * a + b * b
             f = math.cos(math.pi / NPOLY) if (xkind, ykind) != ('num', 'num') else 1.0
             return q <= f * f * (1 - 1e-3), q >= (1 + 1e-3)
@@ -181,6 +188,46 @@ def body_polylike(env, kinds=1, shape='triangle', nrows=3, xperms=None, yperms=N
 
 
 NPOLY = 8
+
+
+def _numeric_conic(env, shape, nrows, dx, dy):
+    """circle / rotated ellipse on two numeric axes: the data points are parametrised in the region's own frame
+    (a, b) and mapped forward, so that the translation cancels and the queries stay polynomial in (a, b) only"""
+    from glue.core import Data
+    from glue.core.component import Component
+    from glue.core.subset import roi_to_subset_state
+    from glue.core.roi import CircularROI, EllipticalROI
+    from vtools import symnp as sn
+    if shape == 'circle':
+        rx = ry = 1.25
+        theta = 0.0
+        roi = CircularROI(1.0 + dx, 1.0 + dy, rx)
+    else:
+        rx, ry = 1.5, 0.75
+        thetas = [0.0, 2.0, -0.5, 3.5]
+        theta = thetas[env.choice('theta', len(thetas))]
+        roi = EllipticalROI(1.0 + dx, 1.0 + dy, rx, ry, theta=theta)
+    ct, st_ = sn.trig(theta)
+    A = [env.real('a%d' % i, lo=-3, hi=3) for i in range(nrows)]
+    B = [env.real('b%d' % i, lo=-3, hi=3) for i in range(nrows)]
+    xs = [1.0 + dx + ct * (a * rx) - st_ * (b * ry) for a, b in zip(A, B)]
+    ys = [1.0 + dy + st_ * (a * rx) + ct * (b * ry) for a, b in zip(A, B)]
+    if env.symbolic:
+        mk = lambda v: sn.wrap(np.array(v, dtype=object))
+    else:
+        mk = lambda v: np.array(v, dtype=float)
+    d = Data(label='d')
+    d.add_component(Component(mk(xs)), 'x')
+    d.add_component(Component(mk(ys)), 'y')
+    st = roi_to_subset_state(roi, x_att=d.id['x'], y_att=d.id['y'])
+    got = d.get_mask(st)
+    conds = []
+    for i in range(nrows):
+        q = A[i] * A[i] + B[i] * B[i]
+        conds.append((~(q <= 1 - 1e-4)) | got[i])
+        conds.append((~(q >= 1 + 1e-4)) | (~got[i]))
+    env.true_all(conds, '%s (theta=%r) on two numeric axes: selected <=> inside (band excepted)' % (shape, theta))
+
 
 
 def _clamp_linspace():
